@@ -452,8 +452,10 @@ func init() {
 		race("race-die-die-restart-"+mname, mode, 2, 3, true, func(w *World, app *appB) func() {
 			var er error
 			restarted := false
-			w.ex.Thread("D1", func() { w.n.Send(w.pids["m1"], "fail") })
-			w.ex.Thread("D2", func() { w.n.Send(w.pids["m2"], "fail") })
+			// the pids of THIS run (a restart re-uses the names m1, m2 for new processes)
+			p1, p2 := w.pids["m1"], w.pids["m2"]
+			w.ex.Thread("D1", func() { w.n.Send(p1, "fail") })
+			w.ex.Thread("D2", func() { w.n.Send(p2, "fail") })
 			w.ex.Thread("RS", func() {
 				vsched.Block(vsched.OpUser, 0, func() bool {
 					info, err := w.n.ApplicationInfo("app")
